@@ -5,10 +5,8 @@ From Flocq Require Import Core.Raux.
 From Inferno Require Import Base.Num Base.NumR C19.Encoders C19.EncodersLists C19.EncodersPoisson C19.EncodersProofs.
 Import ListNotations.
 Open Scope R_scope.
-Theorem exp_online_min_gap : forall (guard : nat -> bool) (steps : nat) (dt : T RN) (refrac : option (T RN))
-    (comp : bool) (inps draws0 : list (T RN)) (draws : list (list (T RN)))
-    (outs : list (list bool)) (raised : bool) (j t1 t2 : nat),
-  exp_online_gen RN guard steps dt refrac comp inps draws0 draws = (outs, raised) ->
+Theorem exp_online_min_gap : forall (steps : nat) (dt : R) (refrac : option R) (comp : bool) 
+    (inps draws0 : list (T RN)) (draws : list (list (T RN))) (j t1 t2 : nat),
   length draws0 = length inps ->
   Forall nonneg draws0 ->
   Forall (Forall nonneg) draws ->
@@ -17,8 +15,8 @@ Theorem exp_online_min_gap : forall (guard : nat -> bool) (steps : nat) (dt : T 
   Forall (fun x : R => 0 <= x) inps ->
   (comp = true -> Forall (fun x : R => x * refrac_ms refrac dt <= 1000) inps) ->
   (t1 < t2)%nat ->
-  nth j (nth t1 outs []) false = true ->
-  nth j (nth t2 outs []) false = true ->
+  nth j (nth t1 (exp_online RN steps dt refrac comp inps draws0 draws) []) false = true ->
+  nth j (nth t2 (exp_online RN steps dt refrac comp inps draws0 draws) []) false = true ->
   (Zfloor (refrac_ms refrac dt / dt) <= Z.of_nat t2 - Z.of_nat t1)%Z.
 Proof. exact (@Inferno.C19.EncodersProofs.exp_online_min_gap). Qed.
 Print Assumptions exp_online_min_gap.
